@@ -15,23 +15,20 @@ impl GenerationPass for EliminateDeadCodeDirectionsPass {
         let mut changed = true;
         while changed {
             changed = false;
-            let old = nodes.clone();
             for node in nodes {
                 // An indirect jump (`jr t0`) leaves to an address the graph
                 // does not know, like a return: it is no dead end
                 let indirect_jump = node.is_unconditional_jump()
                     && matches!(node.node(), ParserNode::JumpLinkR(_));
-                if node.is_return()
-                    || indirect_jump
-                    || node.is_any_entry()
-                    || node.might_terminate()
-                {
+                if node.is_return() || indirect_jump || node.is_any_entry() {
                     continue;
                 }
                 // If the node has no nexts, remove it from the prevs of all its prevs
-                if node.nexts().is_empty() {
+                // (an ecall may end the program: it is no dead end)
+                if node.nexts().is_empty() && !node.might_terminate() {
                     for prev in node.prevs().clone() {
                         prev.remove_next(node);
+                        changed = true;
                     }
                     node.clear_prevs();
                 }
@@ -40,13 +37,13 @@ impl GenerationPass for EliminateDeadCodeDirectionsPass {
                 if node.prevs().is_empty() {
                     for next in node.nexts().clone() {
                         next.remove_prev(node);
+                        changed = true;
                     }
                     node.clear_nexts();
                 }
             }
-            if &old != nodes {
-                changed = true;
-            }
+            // (an edge was cut: a node earlier in the file may have lost its last
+            // predecessor or successor, so the nodes are gone through again)
         }
 
         Ok(())
